@@ -1250,6 +1250,7 @@ pub struct Sys {
     /// signatures currently failing: reported only on the step that breaks them
     broken: BTreeSet<String>,
     deferring: bool,
+    ever_deferred: bool,
 }
 
 pub struct HistModel {
@@ -1466,6 +1467,7 @@ impl Model for HistModel {
             mirror: BTreeMap::new(),
             broken: BTreeSet::new(),
             deferring: false,
+            ever_deferred: false,
         }
     }
 
@@ -1555,6 +1557,7 @@ impl Model for HistModel {
                 }
                 sys.t.start_deferral(fam);
                 sys.deferring = true;
+                sys.ever_deferred = true;
             }
             Op::EndDeferral => {
                 if !sys.deferring {
@@ -1592,7 +1595,7 @@ impl Model for HistModel {
             }
             s.push('|');
         }
-        let _ = write!(s, "u{:?}i{:?}b{:?}d{}", sys.up, sys.invalid, sys.broken, sys.deferring as u8);
+        let _ = write!(s, "u{:?}i{:?}b{:?}d{}{}", sys.up, sys.invalid, sys.broken, sys.deferring as u8, sys.ever_deferred as u8);
         s.into_bytes()
     }
 
